@@ -75,6 +75,23 @@ MUTANTS = [
     ("kernelrim-penalty-batch-rows", "gemclus/linear/_linear_geminis.py",
      "base_grads[0] += 2 * self.reg * np.dot(self._training_kernel, self.W_)",
      "base_grads[0] += 2 * self.reg * np.dot(X, self.W_) if len(X) == len(self.W_) else 2 * self.reg * np.dot(self._training_kernel, self.W_)", ["C03"]),
+    ("mlcl-positions-as-ids", "gemclus/mlcl.py",
+     "                if i in last_indices and j in last_indices:\n                    idx0, idx1 = last_indices.index(i), last_indices.index(j)\n                    gradient[idx0] += factor",
+     "                if i in last_indices and j in last_indices:\n                    idx0, idx1 = (i, j) if max(i, j) < len(last_indices) else (last_indices.index(i), last_indices.index(j))\n                    gradient[idx0] += factor",
+     ["C14", "C03"]),
+    ("mlcl-cl-one-sided", "gemclus/mlcl.py",
+     "                    gradient[idx1] += factor * (y_pred[idx1] - y_pred[idx0])\n", "", ["C14", "C03"]),
+    ("mlcl-factor-dropped-ml", "gemclus/mlcl.py",
+     "                    gradient[idx0] -= factor * (y_pred[idx0] - y_pred[idx1])",
+     "                    gradient[idx0] -= (y_pred[idx0] - y_pred[idx1])", ["C14", "C03"]),
+    ("mlcl-stale-indices", "gemclus/mlcl.py",
+     "                disguise_batch.indices = subset.tolist()\n                yield X[subset], affinity_batch",
+     "                yield X[subset], affinity_batch\n                disguise_batch.indices = subset.tolist()", ["C14"]),
+    ("mlcl-validator-self-pair-cl", "gemclus/mlcl.py",
+     "        if np.any(cannot_link[:, 0] == cannot_link[:, 1]):", "        if np.all(cannot_link[:, 0] == cannot_link[:, 1]):", ["C14"]),
+    ("mlcl-validator-direct-only", "gemclus/mlcl.py",
+     "            if pair_i in component and pair_j in component:",
+     "            if pair_i in component and pair_j in component and len(component) == 2:", ["C14"]),
 ]
 
 
